@@ -134,6 +134,12 @@ func typeKey(t types.Type) string {
 	case *types.Slice:
 		return "[]" + typeKey(x.Elem())
 	case *types.Basic:
+		switch x.Kind() {
+		case types.Uint8:
+			return "uint8"
+		case types.Int32:
+			return "int32"
+		}
 		return x.Name()
 	}
 	return t.String()
